@@ -128,6 +128,37 @@ def check_matcher_missing(ctx):
                         guarded = True
             if not guarded and bad is None:
                 bad = U(t)[:60]
+    # completeness: an iteration that saw a missing value with allow_missing on must reach the row append
+    from ..paths import loop_body_paths
+    sinks = [n for n in ast.walk(lp) if isinstance(n, ast.Expr) and isinstance(n.value, ast.Call) and call_name(n.value) == 'append'
+             and isinstance(n.value.func.value, ast.Name)
+             and any(isinstance(x, ast.Call) and U(x.func).endswith('DataFrame') and x.args and U(x.args[0]) == n.value.func.value.id
+                     for x in ast.walk(f.node))]
+    lost = None
+    n_keep = 0
+    for p, how in loop_body_paths(view, lp):
+        ps = symexec(p)
+        if any(isinstance(e, ast.Constant) and bool(e.value) != pol for e, pol, _ in ps.conds):
+            continue        # infeasible: a flag set earlier on this path contradicts the branch taken
+        flat = []
+        for e, pol, _ in ps.conds:
+            fm = to_formula(e, pol)
+            for part in (fm[1] if fm[0] == 'and' else [fm]):
+                if part[0] == 'lit':
+                    flat.append((U(part[1]), part[2]))
+                elif part[0] == 'or' and all(x[0] == 'lit' for x in part[1]):
+                    flat.append((' or '.join(U(x[1]) for x in part[1]), all(x[2] for x in part[1])))
+        miss = any(pol and 'isnull' in t for t, pol in flat)
+        allow = ('allow_missing', True) in flat and ('allow_missing', False) not in flat
+        if not (miss and allow):
+            continue
+        n_keep += 1
+        reached = any(step.node.ast is sk for step in p for sk in sinks)
+        if not reached and lost is None:
+            lost = ' and '.join(('%s' if pol else 'not(%s)') % U(e)[:50] for e, pol, _ in ps.conds[-5:])
+    ctx.check('R-MISS/matcher', f, 'missing pairs kept', lost is None and n_keep > 0,
+              'a candidate row with a missing value is not emitted although allow_missing is set (path: %s)' % lost, lp,
+              sample='%d paths with a missing value and allow_missing all reach the row append' % n_keep)
     ctx.check('R-MISS/matcher', f, 'isnull before use', bad is None,
               '`%s` can run on a missing value: the test `isnull(left) or isnull(right)` does not precede it on every path'
               % bad, lp, sample='%d paths to sim_function/tokenize all pass not(isnull(l) or isnull(r))' % npaths)
